@@ -214,11 +214,14 @@ func RunSession(spec SessionSpec) *SessionResult {
 					}
 					return n >= len(want) && len(items) >= spec.CloseAfterItems
 				})
+				res.Fixture.Gate.OpenPrefix(SlowHandlerGate) // the plugin does not end while a handler is still at work
 				res.CloseErr = cli.Close()
 				res.CloseReturned = true
 			}
 			wg.Wait()
 		}
+		// the calls of the history are over: signal handlers that were taking their time go on now
+		res.Fixture.Gate.OpenPrefix(SlowHandlerGate)
 		if !res.CloseReturned {
 			var late sync.WaitGroup
 			if spec.ExecAtClose != nil {
